@@ -320,7 +320,17 @@ macro_rules! txin_dec_issuance {
             const LK: usize = if $pk == 0 { 1 } else if $pk == 1 { 9 } else { 33 };
             const K: usize = 41 + 64 + LA + LK;
             const N: usize = K + 1;
-            let mut buf: [u8; N] = kani::any();
+            // symbolic: wire index, sequence, blinding nonce, and the amount payloads; txid and entropy are fixed (their
+            // handling is covered with full range by outpoint_codec / issuance_dec_enc) to keep the struct copies cheap
+            let mut buf: [u8; N] = [0u8; N];
+            let idx: [u8; 4] = kani::any();
+            let seq: [u8; 4] = kani::any();
+            let nonce_in: [u8; 32] = kani::any();
+            let pay: [u8; LA + LK] = kani::any();
+            buf[32..36].copy_from_slice(&idx);
+            buf[37..41].copy_from_slice(&seq);
+            buf[41..73].copy_from_slice(&nonce_in);
+            buf[41 + 64..41 + 64 + LA + LK].copy_from_slice(&pay);
             buf[36] = 0;
             buf[41 + 64] = $pa;
             buf[41 + 64 + LA] = $pk;
